@@ -8,6 +8,8 @@
 //!    {0,5,100} and 4 targets; the domain is decided by the oracle's own singular values.
 //! Every execution fits one model configuration (OLS, or ridge with one alpha and one normalise
 //! setting) with BOTH solvers and checks every clause of the statement at the reported (w, b).
+//! Round 2 (jobs `ways-*`): on a family of small cases the way the parameter struct is constructed is a
+//! further choice — every order of the chained builder calls and the struct literal (check.rs, RIDGE_WAYS).
 
 mod check;
 mod dd;
@@ -19,6 +21,15 @@ use mc_core::oracle::Mat;
 use mc_core::{self as mc, json, Harness, Job, Plan, Tier};
 
 struct C07;
+
+// floors of the construction-order family: about a third of what the quick tier of seed 0 reaches
+// (444 991 / 171 144 / 419 670 / 193 735 / 74 160 / 6 972)
+const WAYS_FLOOR_ORDER: u64 = 150_000;
+const WAYS_FLOOR_NONDEFAULT: u64 = 55_000;
+const WAYS_FLOOR_NONZERO: u64 = 140_000;
+const WAYS_FLOOR_F32: u64 = 60_000;
+const WAYS_FLOOR_LITERAL: u64 = 25_000;
+const WAYS_FLOOR_OLS: u64 = 2_300;
 
 const N_CONFIGS: usize = 9; // 0 = OLS; 1..=4 ridge normalize=on, alpha index; 5..=8 ridge normalize=off
 
@@ -35,9 +46,12 @@ fn mat_str(x: &Mat) -> String {
 
 /// One configuration on one (X, y): decides the domain, runs the checks, counts. Returns what the
 /// library returned (None when the configuration is outside the domain for this X).
-fn run_config(xi: &XInfo, y: &[f64], cfg: usize, label: &dyn Fn() -> String) -> Option<check::Observed> {
+///
+/// `way`: None = the jobs of round 1 (one fixed construction of the parameter struct: the builder call for least
+/// squares, the struct literal for ridge); Some(k) = the construction-order family (round 2), k-th way.
+fn run_config(xi: &XInfo, y: &[f64], cfg: usize, way: Option<usize>, label: &dyn Fn() -> String) -> Option<check::Observed> {
     let lim = xi.w.cond_limit();
-    let cx = Ctx { xi, y, label };
+    let cx = Ctx { xi, y, way: way.unwrap_or(if cfg == 0 { check::OLS_BUILDER } else { check::RIDGE_LITERAL }), label };
     let f32c = xi.w == W::F32;
     let obs = match cfg {
         0 => {
@@ -97,7 +111,44 @@ fn run_config(xi: &XInfo, y: &[f64], cfg: usize, label: &dyn Fn() -> String) -> 
         mc::nontrivial();
         mc::count("nonzero_model");
     }
+    if let Some(k) = way {
+        // non-vacuity of the construction-order family (in-domain executions that reached the oracle)
+        if cfg == 0 {
+            mc::count(if k == check::OLS_BUILDER { "ways_ols_builder_cases" } else { "ways_ols_literal_cases" });
+        } else if k == check::RIDGE_LITERAL {
+            mc::count("ways_ridge_literal_cases");
+        } else {
+            mc::count("ways_ridge_builder_order_cases");
+            // a call that resets another field to its default (alpha 1, normalize on) is visible in the fitted model
+            // only if the requested value is not the default
+            if cfg > 4 && gen::ALPHAS[(cfg - 1) % 4] != 1.0 {
+                mc::count("ways_ridge_builder_alpha_and_normalize_both_nondefault");
+            }
+            if obs.nontrivial {
+                mc::count("ways_ridge_builder_nonzero_model");
+            }
+            if f32c {
+                mc::count("ways_ridge_builder_cases_f32");
+            }
+        }
+    }
     Some(obs)
+}
+
+/// Construction-order family: chooses how the parameter struct of configuration `cfg` is constructed
+/// (7 ways for ridge, 2 for least squares); None for the jobs of round 1.
+fn choose_way(job: &Job, cfg: usize) -> Option<usize> {
+    if job.params["ways"].as_bool() != Some(true) {
+        return None;
+    }
+    Some(mc::choose(if cfg == 0 { check::OLS_WAYS } else { check::RIDGE_WAYS }))
+}
+
+fn way_str(cfg: usize, way: Option<usize>) -> String {
+    match way {
+        None => String::new(),
+        Some(k) => format!(" params={}", check::way_name(cfg == 0, k)),
+    }
 }
 
 fn obs_json(o: &Option<check::Observed>) -> mc::Value {
@@ -143,10 +194,11 @@ fn lattice_case(job: &Job) {
     }
     let y: Vec<f64> = (0..n).map(|_| ay * gen::YALPHA[mc::choose(3)] as f64 + cy).collect();
     let cfg = mc::choose(N_CONFIGS);
-    let label = || format!("lattice {} X={} y={:?}", w.name(), mat_str(&xi.x), y);
-    let obs = run_config(&xi, &y, cfg, &label);
+    let way = choose_way(job, cfg);
+    let label = || format!("lattice {} X={} y={:?}{}", w.name(), mat_str(&xi.x), y, way_str(cfg, way));
+    let obs = run_config(&xi, &y, cfg, way, &label);
     mc::describe(|| {
-        json!({"space": "lattice", "observed": obs_json(&obs), "width": w.name(), "X": xi.x, "y": y, "config": config_name(cfg),
+        json!({"space": "lattice", "parameters_constructed_by": way.map(|k| check::way_name(cfg == 0, k)), "observed": obs_json(&obs), "width": w.name(), "X": xi.x, "y": y, "config": config_name(cfg),
                "rank_X_full": xi.x_full_rank, "rank_X1_full": xi.a_full_rank, "cond_X1": xi.kappa_a(), "cond_X": xi.kappa_x()})
     });
 }
@@ -170,6 +222,7 @@ fn structured_case(job: &Job) {
     let yt = mc::choose(gen::N_YTYPES);
     let y: Vec<f64> = gen::structured_y(yt, &base, n, p, seed).into_iter().map(|v| w.round(v)).collect();
     let cfg = mc::choose(N_CONFIGS);
+    let way = choose_way(job, cfg);
     let sname = gen::pattern_name(sp, ["1", "1e-2", "1e3"], rot);
     let mname = gen::pattern_name(mp, ["0", "5", "100"], rot);
     let label = || {
@@ -177,20 +230,27 @@ fn structured_case(job: &Job) {
         if n * p <= 12 {
             s.push_str(&format!(" X={} y={:?}", mat_str(&xi.x), y));
         }
+        s.push_str(&way_str(cfg, way));
         s
     };
     if sp != 0 {
         mc::count("structured_nonunit_column_scales");
     }
-    let obs = run_config(&xi, &y, cfg, &label);
+    let obs = run_config(&xi, &y, cfg, way, &label);
     mc::describe(|| {
-        json!({"space": "structured", "observed": obs_json(&obs), "width": w.name(), "design": design, "n": n, "p": p, "column_scales": sname, "column_means": mname,
+        json!({"space": "structured", "parameters_constructed_by": way.map(|k| check::way_name(cfg == 0, k)), "observed": obs_json(&obs), "width": w.name(), "design": design, "n": n, "p": p, "column_scales": sname, "column_means": mname,
                "target": gen::ytype_name(yt), "config": config_name(cfg), "cond_X1": xi.kappa_a(), "cond_X": xi.kappa_x(), "max_mean_over_std": xi.kappa_s - 1.0,
                "X_first_rows": xi.x.iter().take(4).collect::<Vec<_>>(), "y_first": y.iter().take(4).collect::<Vec<_>>()})
     });
 }
 
 fn lattice_jobs(jobs: &mut Vec<Job>, p: usize, n: usize, k: usize, nfix: usize, widths: &[&str], seed: u64) {
+    lattice_jobs_w(jobs, p, n, k, nfix, widths, seed, false)
+}
+
+/// `ways` = true: the construction-order family (job names `ways-lattice-..`; the round-1 jobs are exactly those matching `--job lat-p` and `--job str-`)
+#[allow(clippy::too_many_arguments)]
+fn lattice_jobs_w(jobs: &mut Vec<Job>, p: usize, n: usize, k: usize, nfix: usize, widths: &[&str], seed: u64, ways: bool) {
     let combos = k.pow(nfix as u32);
     for w in widths {
         for c in 0..combos {
@@ -202,8 +262,8 @@ fn lattice_jobs(jobs: &mut Vec<Job>, p: usize, n: usize, k: usize, nfix: usize, 
             }
             fix.reverse();
             jobs.push(Job::new(
-                format!("lat-p{}-n{}-s{}-{}-{}", p, n, k, w, fix.iter().map(|d| d.to_string()).collect::<String>()),
-                json!({"kind": "lat", "p": p, "n": n, "k": k, "width": w, "fix": fix, "seed": seed}),
+                format!("{}-p{}-n{}-s{}-{}-{}", if ways { "ways-lattice" } else { "lat" }, p, n, k, w, fix.iter().map(|d| d.to_string()).collect::<String>()),
+                json!({"kind": "lat", "p": p, "n": n, "k": k, "width": w, "fix": fix, "seed": seed, "ways": ways}),
             ));
         }
     }
@@ -247,7 +307,26 @@ impl Harness for C07 {
             // p = 2, n = 4 over Σ3 (6561 X)
             lattice_jobs(&mut jobs, 2, 4, 3, 2, &both, seed);
         }
+        // Round 2 — construction-order family: the same lattice cases, every configuration, with the parameter struct
+        // constructed in each of the 7 (ridge) / 2 (least squares) ways. quick: p = 1, n = 2, 3; thorough: + p = 1, n = 4
+        // and p = 2, n = 3 (all over Σ4).
+        lattice_jobs_w(&mut jobs, 1, 2, 4, 0, &both, seed, true);
+        lattice_jobs_w(&mut jobs, 1, 3, 4, 0, &both, seed, true);
+        if t {
+            lattice_jobs_w(&mut jobs, 1, 4, 4, 1, &both, seed, true);
+            lattice_jobs_w(&mut jobs, 2, 3, 4, 2, &both, seed, true);
+        }
         let mut structured = Vec::new();
+        // construction-order family on the structured designs: quick p = 1..3, n in {p+1, 3p+2}; thorough p = 1..5 with
+        // the seven n of the quick structured space
+        for p in 1..=(if t { 5usize } else { 3 }) {
+            let ns = if t { structured_ns(p, false) } else { vec![p + 1, 3 * p + 2] };
+            for n in ns {
+                for d in gen::DESIGNS {
+                    structured.push((n * p, Job::new(format!("ways-structured-{}-p{}-n{}", d, p, n), json!({"kind": "str", "design": d, "p": p, "n": n, "seed": seed, "ways": true}))));
+                }
+            }
+        }
         for p in 1..=8usize {
             for n in structured_ns(p, t) {
                 for d in gen::DESIGNS {
@@ -278,6 +357,14 @@ impl Harness for C07 {
                 ("structured_nonunit_column_scales", 100_000),
                 ("skipped_lattice_x_rank_deficient", 50),
                 ("nonzero_model", 2_500_000),
+                // construction-order family (round 2): about a third of what the quick tier of seed 0 reaches
+                ("ways_ridge_builder_order_cases", WAYS_FLOOR_ORDER),
+                ("ways_ridge_builder_alpha_and_normalize_both_nondefault", WAYS_FLOOR_NONDEFAULT),
+                ("ways_ridge_builder_nonzero_model", WAYS_FLOOR_NONZERO),
+                ("ways_ridge_builder_cases_f32", WAYS_FLOOR_F32),
+                ("ways_ridge_literal_cases", WAYS_FLOOR_LITERAL),
+                ("ways_ols_builder_cases", WAYS_FLOOR_OLS),
+                ("ways_ols_literal_cases", WAYS_FLOOR_OLS),
             ],
             bounds: json!({
                 "lattice": if t {
@@ -288,6 +375,8 @@ impl Harness for C07 {
                 "structured": format!("designs {:?} x p=1..8 x n in {} x 6 column-scale patterns over {{1,1e-2,1e3}} x 6 column-mean patterns over {{0,5,100}} x 4 targets x f64/f32",
                     gen::DESIGNS, if t { "p+1..80 (every n)" } else { "{p+1,p+2,2p+1,3p+2,20,47,80}" }),
                 "configurations": "OLS {QR,SVD}; ridge alpha in {1e-3,0.1,1,100} x normalize {on,off} x {Cholesky,SVD}",
+                "parameter_construction": format!("round 1 spaces above: one fixed way (OLS: default().with_solver(s); ridge: struct literal). Round-2 family (jobs ways-*): every configuration above (16 ridge: 4 alpha x normalize x solver; 2 OLS) x EVERY way of constructing the parameter struct — ridge 7 ways: Default::default() followed by with_alpha / with_normalize / with_solver in each of the 3! = 6 orders, and the struct literal; OLS 2 ways: default().with_solver(s) and the struct literal — on: lattice every X over {{0,1,-1,2}} {}, every y over {{0,-1,2}}^n, f64 and f32; structured designs {:?} x {} x 6 scale patterns x 6 mean patterns x 4 targets x f64/f32. Clauses: all of the above for the REQUESTED configuration, plus the constructed struct carries the requested solver / alpha / normalize.",
+                    if t { "p=1 n=2..4, p=2 n=3" } else { "p=1 n=2..3" }, gen::DESIGNS, if t { "p=1..5 x n in {p+1,p+2,2p+1,3p+2,20,47,80}" } else { "p=1..3 x n in {p+1,3p+2}" }),
                 "domain": "OLS: [X 1] full column rank (exact on the lattice) and cond2([X 1]) <= 1e6 (f64) / 1e3 (f32); ridge: X full column rank and cond2(X) <= limit; normalize=on additionally needs non-constant columns (an affine dependency between non-constant columns is allowed)",
                 "seed": format!("affine image of the lattice alphabet #{} of 8; rotation of the cyclic scale/mean patterns and indicator offset", seed % 8),
             }),
